@@ -105,3 +105,75 @@ impl AtomicU64 {
         r
     }
 }
+
+// ---------------------------------------------------------------------------------------------
+// H3: emulated Xen gntdev / privcmd ioctls (xen feature, non-test builds).
+// A grant reference `r` designates the page at file offset `r * page_size` of the backing
+// file, so a later `mmap(fd, offset = index)` maps exactly the granted pages; every map and
+// unmap request is logged.
+
+/// one request seen by the emulated device: `map = true` for IOCTL_GNTDEV_MAP_GRANT_REF
+#[cfg(all(feature = "xen", target_family = "unix"))]
+#[derive(Clone, Copy, Debug, PartialEq, Eq)]
+pub struct XenReq {
+    pub map: bool,
+    pub index: u64,
+    pub count: u32,
+}
+
+#[cfg(all(feature = "xen", target_family = "unix"))]
+thread_local! {
+    static XEN_LOG: RefCell<Vec<XenReq>> = const { RefCell::new(Vec::new()) };
+    static XEN_FAIL_NEXT: std::cell::Cell<bool> = const { std::cell::Cell::new(false) };
+}
+
+#[cfg(all(feature = "xen", target_family = "unix"))]
+pub fn xen_log_take() -> Vec<XenReq> {
+    XEN_LOG.with(|l| std::mem::take(&mut *l.borrow_mut()))
+}
+/// make the next emulated ioctl fail (returns -1)
+#[cfg(all(feature = "xen", target_family = "unix"))]
+pub fn xen_fail_next() {
+    XEN_FAIL_NEXT.with(|f| f.set(true));
+}
+
+/// stand-in for `vmm_sys_util::ioctl::ioctl_with_ref`
+///
+/// # Safety
+/// `arg` must point to the ioctl argument structure the request number announces.
+#[cfg(all(feature = "xen", target_family = "unix"))]
+pub unsafe fn xen_ioctl_with_ref<F: std::os::unix::io::AsRawFd, T>(
+    _fd: &F,
+    req: std::os::raw::c_ulong,
+    arg: &T,
+) -> std::os::raw::c_int {
+    if XEN_FAIL_NEXT.with(|f| f.replace(false)) {
+        return -1;
+    }
+    let ty = ((req >> 8) & 0xff) as u8;
+    let nr = (req & 0xff) as u8;
+    let p = arg as *const T as *mut u8;
+    // SAFETY: same contract as the real ioctl.
+    let page = libc::sysconf(libc::_SC_PAGESIZE) as u64;
+    match (ty, nr) {
+        (b'G', 0) => {
+            // ioctl_gntdev_map_grant_ref { count: u32, pad: u32, index: u64, refs: [{domid: u32, ref: u32}] }
+            let count = std::ptr::read_unaligned(p as *const u32);
+            let first_ref = std::ptr::read_unaligned(p.add(20) as *const u32);
+            let index = first_ref as u64 * page;
+            std::ptr::write_unaligned(p.add(8) as *mut u64, index);
+            XEN_LOG.with(|l| l.borrow_mut().push(XenReq { map: true, index, count }));
+            0
+        }
+        (b'G', 1) => {
+            // ioctl_gntdev_unmap_grant_ref { index: u64, count: u32, pad: u32 }
+            let index = std::ptr::read_unaligned(p as *const u64);
+            let count = std::ptr::read_unaligned(p.add(8) as *const u32);
+            XEN_LOG.with(|l| l.borrow_mut().push(XenReq { map: false, index, count }));
+            0
+        }
+        // IOCTL_PRIVCMD_MMAPBATCH_V2: the foreign pages are whatever the file holds
+        (b'P', 4) => 0,
+        _ => -1,
+    }
+}
